@@ -455,4 +455,6 @@ def rules(model: Model, tier: str) -> List[RuleResult]:
     _degeneracy_map(model, K)
     _svd_path(model, D)
     _hy = ac.hygiene_rules(model, fc, PROP, min_copies=2, min_opt=2)
-    return [R1, R2, R3, R5, R6, Sy, Mr, O, G, K, D, *_hy]
+    from ..rules import substitution as _subst
+    _sub = _subst.rules(model, PROP, tier)
+    return [R1, R2, R3, R5, R6, Sy, Mr, O, G, K, D, *_hy, *_sub]
